@@ -114,3 +114,9 @@ Proof.
   unfold ixs_of. cbn [length]. f_equal. generalize first DATA0.
   induction blocks as [|b bs IH]; intros li fi; [reflexivity|]. cbn [ixs_from length]. rewrite IH. reflexivity.
 Qed.
+
+Lemma lim_ext (a b : lim) :
+  l_file a = l_file b -> l_indexs a = l_indexs b -> l_start a = l_start b -> l_icur a = l_icur b ->
+  l_flen a = l_flen b -> l_dcur a = l_dcur b -> l_cnt a = l_cnt b -> l_lterm a = l_lterm b ->
+  l_cic a = l_cic b -> l_seek a = l_seek b -> l_dpos a = l_dpos b -> l_split a = l_split b -> a = b.
+Proof. destruct a, b. cbn. intros. subst. reflexivity. Qed.
